@@ -128,6 +128,8 @@ def plan(r: random.Random, tier: str) -> list[dict[str, Any]]:
             cell["copy_from"] = r.randrange(len(variants))
             cell["copy_to"] = [c for c in cfgs if c != variants[cell["copy_from"]]["cfg"]] if sk != "gp" else []
         cell["variants"] = variants
+        if sk != "gp":
+            cell["hash_seeds"] = [1 + i % 7, 101] if tier == "quick" else [1 + i % 7, 11 + i % 5, 101]
         cells.append(cell)
     return cells
 
@@ -272,6 +274,20 @@ def copy_check(cell: dict[str, Any], src: dict[str, Any], src_cfg: str, targets:
     return out
 
 
+def run_in_subprocess(spec: dict[str, Any], tmp: str, hash_seed: int) -> dict[str, Any]:
+    import subprocess
+    import sys
+
+    env = dict(os.environ, PYTHONHASHSEED=str(hash_seed))
+    env["PYTHONPATH"] = os.pathsep.join([core.ROOT] + ([env["PYTHONPATH"]] if env.get("PYTHONPATH") else []))
+    p = subprocess.run([sys.executable, "-m", "verif.repro_sub"], input=json.dumps({"spec": spec, "tmp": tmp}), capture_output=True,
+                       text=True, timeout=600, env=env, cwd=core.ROOT)
+    for line in p.stdout.splitlines():
+        if line.startswith("RESULT "):
+            return json.loads(line[7:])
+    raise RuntimeError("no result (exit %s): %s" % (p.returncode, p.stderr[-300:]))
+
+
 def run_cell(args: tuple[dict[str, Any], str, bool]) -> dict[str, Any]:
     """Everything about one cell, in a worker process.  Returns counters, cases and findings."""
     cell, tmp, do_model = args
@@ -318,6 +334,22 @@ def run_cell(args: tuple[dict[str, Any], str, bool]) -> dict[str, Any]:
         report({"kind": "irreproducible", "how": "repeat"}, {"cfg": "mem", "shift": {}, "split": [n], "repeat": True}, d,
                "%s/%s: two runs with the same seed on fresh in-memory storages differ at trial %s (%s)" % (
                    cell["sk"], cell["pk"], d and d["trial"], d and d["fields"]))
+
+    # reproducible in another interpreter: a fresh process with its own string-hash seed (set / dict iteration
+    # order of parameter names must not steer the seeded RNG)
+    for hs in cell.get("hash_seeds", []):
+        try:
+            oth = run_in_subprocess(spec_of(cell, "mem", {}, [n]), tmp, hs)
+        except Exception as e:  # noqa: BLE001
+            res["broke"].append({"what": "harness", "detail": "subprocess run raised %s: %s" % (type(e).__name__, str(e)[:300])})
+            continue
+        count("runs-in-fresh-interpreter")
+        res["cases"].append({"case": {"cell": cell["idx"], "sampler": cell["sampler"], "pruner": cell["pruner"], "variant": "hashseed-%d" % hs}, "nontrivial": nontrivial})
+        d = K.first_diff(json.loads(json.dumps(hist)), oth["hist"])
+        if d is not None or (ref["crash"] or {}).get("type") != (oth["crash"] or {}).get("type"):
+            report({"kind": "irreproducible", "how": "other-process"}, {"cfg": "mem", "shift": {}, "split": [n], "hash_seed": hs}, d,
+                   "%s/%s: a run in a fresh interpreter with PYTHONHASHSEED=%d differs from this process's run with the same seed at trial %s (%s)" % (
+                       cell["sk"], cell["pk"], hs, d and d["trial"], d and d["fields"]))
 
     # K1: loop model vs implementation
     if do_model and not ref["crash"]:
@@ -560,7 +592,23 @@ def search(chk: core.Check) -> None:
         cell["copy_from"] = 1
         cell["copy_to"] = ["mem", "journal-symlink"]
         cells.append(cell)
-    chk.search_log.append("search: %d shift-heavy cells over samplers %s" % (len(cells), kinds))
+    # the cells on which the model and the implementation disagreed, on every kind of backend (a broken correspondence
+    # on the in-memory reference is often a behaviour that differs between backends)
+    planned = {c["idx"]: c for c in getattr(chk, "planned_cells", [])}
+    seen_cells = set()
+    for b in chk.broken:
+        ci = (b.get("detail") or {}).get("cell") if isinstance(b.get("detail"), dict) else None
+        if ci in planned and ci not in seen_cells and len(seen_cells) < 6:
+            seen_cells.add(ci)
+            cell = dict(planned[ci])
+            n = cell["n"]
+            cell["variants"] = [{"cfg": c, "shift": gen_shift(r, i % 2 == 0), "split": [n]}
+                                for i, c in enumerate(["rdb", "journal-symlink", "grpc(mem)", "cached", "grpc(rdb)"]) if c in fleet.THOROUGH]
+            cell["copy_to"] = []
+            cell["hash_seeds"] = []
+            cells.insert(0, cell)
+    chk.search_log.append("search: %d cells (%d of them the cells with a broken correspondence, on every backend kind) over samplers %s" % (
+        len(cells), len(seen_cells), kinds))
     before = len(chk.violations)
     run_matrix(chk, cells, do_model=False)
     chk.search_log.append("search found %d violation(s)" % (len(chk.violations) - before))
@@ -578,6 +626,7 @@ def main(chk: core.Check) -> int:
         ga_cache_k(chk)
         cells = plan(chk.rng, chk.tier)
         chk.extra["cells"] = len(cells)
+        chk.planned_cells = cells  # type: ignore[attr-defined]
         run_matrix(chk, cells)
     except core.DriverBroken as e:
         chk.broke("correspondence", {"driver": str(e)[:800]})
